@@ -5,6 +5,7 @@ import numpy.linalg as npla
 from autograd.extend import defjvp, defvjp
 
 from . import numpy_wrapper as anp
+from .numpy_vjps import unbroadcast_f
 from .numpy_wrapper import wrap_namespace
 
 wrap_namespace(npla.__dict__, globals())
@@ -69,7 +70,7 @@ def grad_solve(argnum, ans, a, b):
     if argnum == 0:
         return lambda g: -_dot(updim(solve(T(a), g)), T(updim(ans)))
     else:
-        return lambda g: solve(T(a), g)
+        return unbroadcast_f(b, lambda g: solve(T(a), g))
 
 
 defvjp(solve, partial(grad_solve, 0), partial(grad_solve, 1))
